@@ -7,6 +7,7 @@ pub mod h_ser;
 pub mod h_match;
 pub mod sc;
 pub mod h_fsm;
+pub mod h_loop;
 
 pub use vnd::*;
 
@@ -15,5 +16,6 @@ pub fn run_harness(name: &str) -> bool {
     if h_ser::run(name) { return true; }
     if h_match::run(name) { return true; }
     if h_fsm::run(name) { return true; }
+    if h_loop::run(name) { return true; }
     false
 }
